@@ -10,7 +10,7 @@ use std::ffi::OsString;
 
 pub static DEF: PropDef = PropDef {
     id: "C06",
-    rule: "random: argument count log-uniform in [1, 400000] x length profile {all 1 byte, 1-20 bytes, page-sized, mostly small with a few within 0-2 bytes of the per-argument limit (131071 bytes + NUL), mixed} (total input capped at ~12 MB) x environment size {minimal, 1/4, 3/4 of the kernel budget, spread over few large or many small variables} x RLIMIT_STACK {256 KiB, 1 MiB, 8 MiB, 64 MiB, unlimited} (kernel budget 128 KiB .. 6 MiB; set with setrlimit in the child before exec) x fixed arguments after the command {none, 3000, 9000, 20000, 60000 bytes: part of every command line} x options {none, -n N, -s S (also S above the system limit), -L N}; NUL-separated input. A third sub-run runs xargs -I{} with templates holding 1-8 occurrences of {} per argument on lines sized so that the SUBSTITUTED arguments approach or exceed the per-argument limit or the whole budget. A second sub-run places one argument of 131072..400000 bytes (over the per-argument limit) at a random position. Oracle: the kernel itself - the built xargs binary runs the rec recorder; violation iff xargs exits 126 / reports 'Argument list too long' / any other status than 0, or the concatenation of the recorded arguments differs from the input (nothing lost, duplicated or reordered); for an oversized argument: exit status 1, a diagnostic, and no recorded invocation contains it or anything after it. Non-trivial = total argv bytes + 8 bytes of pointer per argument exceed the kernel budget of the chosen stack limit (>= 2 invocations are required), or an argument within 2 bytes of the per-argument limit is present. Distinct = distinct case JSON.",
+    rule: "random: argument count log-uniform in [1, 400000] x length profile {all 1 byte, 1-20 bytes, page-sized, mostly small with a few within 0-2 bytes of the per-argument limit (131071 bytes + NUL), mixed} (total input capped at ~12 MB) x environment size {minimal, 1/4, 3/4 of the kernel budget, spread over few large or many small variables} x RLIMIT_STACK {256 KiB, 1 MiB, 8 MiB, 64 MiB, unlimited} (kernel budget 128 KiB .. 6 MiB; set with setrlimit in the child before exec) x length of the path the command is named by {short, 900, 2300, 3900 bytes} x fixed arguments after the command {none, 3000, 9000, 20000, 60000 bytes: part of every command line} x options {none, -n N, -s S (also S above the system limit), -L N}; NUL-separated input. A third sub-run runs xargs -I{} with templates holding 1-8 occurrences of {} per argument on lines sized so that the SUBSTITUTED arguments approach or exceed the per-argument limit or the whole budget. A second sub-run places one argument of 131072..400000 bytes (over the per-argument limit) at a random position. Oracle: the kernel itself - the built xargs binary runs the rec recorder; violation iff xargs exits 126 / reports 'Argument list too long' / any other status than 0, or the concatenation of the recorded arguments differs from the input (nothing lost, duplicated or reordered); for an oversized argument: exit status 1, a diagnostic, and no recorded invocation contains it or anything after it. Non-trivial = total argv bytes + 8 bytes of pointer per argument exceed the kernel budget of the chosen stack limit (>= 2 invocations are required), or an argument within 2 bytes of the per-argument limit is present. Distinct = distinct case JSON.",
     assumptions: &[
         "Linux: per-argument limit MAX_ARG_STRLEN = 131072 bytes including the terminator; total budget max(min(RLIMIT_STACK/4, 6 MiB), 128 KiB) for strings plus one pointer per argument and environment entry",
         "the running kernel of this sandbox is the oracle for 'accepted by exec'",
@@ -46,6 +46,9 @@ pub struct Case {
     /// bytes of fixed (initial) arguments after the command: they are part of every command line
     #[serde(default)]
     pub fixed: u32,
+    /// length of the (relative) path the command is named by; 0 = the recorder's own short path
+    #[serde(default)]
+    pub cmd_path: u16,
 }
 
 fn fill(len: usize, i: usize, content: u8) -> Vec<u8> {
@@ -155,7 +158,7 @@ pub fn gen_case(g: &mut Gen) -> Case {
         let e = g.below(10_000) as f64 / 10_000.0 * max_exp;
         (2f64.powf(e) as usize).clamp(1, 400_000)
     };
-    Case { count, profile, len_seed: g.u64_any(), env: (g.weighted(&[3, 2, 2]) as u8) | if g.bool() { 16 } else { 0 }, stack, opt: g.weighted(&[5, 2, 3, 1]) as u8, opt_value: 0, oversize: None, content: g.weighted(&[3, 2, 1]) as u8, fixed: g.pick(&[0u32, 0, 0, 0, 3000, 9000, 20000, 60000]) }
+    Case { count, profile, len_seed: g.u64_any(), env: (g.weighted(&[3, 2, 2]) as u8) | if g.bool() { 16 } else { 0 }, stack, opt: g.weighted(&[5, 2, 3, 1]) as u8, opt_value: 0, oversize: None, content: g.weighted(&[3, 2, 1]) as u8, fixed: g.pick(&[0u32, 0, 0, 0, 3000, 9000, 20000, 60000]), cmd_path: g.pick(&[0u16, 0, 0, 0, 0, 900, 2300, 3900]) }
 }
 
 fn finish_opts(g: &mut Gen, mut c: Case) -> Case {
@@ -274,7 +277,7 @@ pub fn check(ctx: &mut Ctx, c: &Case) -> Outcome {
     // fixed arguments: only where they leave room for the longest argument
     let longest_arg = args.iter().map(|a| a.len()).max().unwrap_or(0);
     let mut fixed_total = c.fixed as usize;
-    if fixed_total + fixed_total / 1000 * 8 + 64 + rec_path().len() + 2048 + 4096 + env_bytes + env.len() * 8 + longest_arg.min(MAX_ARG_STRLEN) + 9 + 4096 > budget(c.stack) {
+    if fixed_total + fixed_total / 1000 * 8 + 64 + rec_path().len() + 2 * c.cmd_path as usize + 2048 + 4096 + env_bytes + env.len() * 8 + longest_arg.min(MAX_ARG_STRLEN) + 9 + 4096 > budget(c.stack) {
         fixed_total = 0;
     }
     let fixed_args: Vec<OsString> = {
@@ -287,11 +290,30 @@ pub fn check(ctx: &mut Ctx, c: &Case) -> Outcome {
         }
         v
     };
-    if c.opt == 2 && fixed_total > 0 {
+    if c.opt == 2 && (fixed_total > 0 || c.cmd_path > 0) {
         let n = opts.len();
-        opts[n - 1] = (c.opt_value + fixed_total + 16).to_string().into();
+        opts[n - 1] = (c.opt_value + fixed_total + c.cmd_path as usize + 16).to_string().into();
     }
-    let mut cmd: Vec<OsString> = vec![rec_path()];
+    // the command named by a long relative path (a chain of directories holding a link to the
+    // recorder): the kernel charges the executed file's name besides argv[0]
+    let cmd0: OsString = if c.cmd_path > 0 {
+        let mut p = String::from("L");
+        while p.len() + 252 < c.cmd_path as usize {
+            p.push('/');
+            p.push_str(&"d".repeat(250));
+        }
+        let rest = (c.cmd_path as usize).saturating_sub(p.len() + 3).clamp(1, 250);
+        p.push('/');
+        p.push_str(&"e".repeat(rest));
+        let _ = std::fs::create_dir_all(ctx.root.join(&p));
+        let link = format!("{p}/r");
+        let _ = std::fs::remove_file(ctx.root.join(&link));
+        std::os::unix::fs::symlink(rec_path(), ctx.root.join(&link)).unwrap();
+        link.into()
+    } else {
+        rec_path()
+    };
+    let mut cmd: Vec<OsString> = vec![cmd0.clone()];
     cmd.extend(fixed_args.iter().cloned());
     let bo = BinOpts { clear_env: true, env: env.clone(), stack_limit: Some(stack_bytes(c.stack)), timeout_s: 300, ..Default::default() };
     let run = run_xargs(ctx, &opts, &cmd, &input, "", bo);
@@ -333,12 +355,12 @@ pub fn check(ctx: &mut Ctx, c: &Case) -> Outcome {
     // An argument within the per-argument limit may still be too large for the whole budget
     // (base command, environment, pointers, headroom): nobody can pass it, and the statement only
     // requires that no rejected command line is built.  `tight(a)`: not certain to fit.
-    let base_cost = rec_path().len() + 1 + 8 + 16 + 2048 + 4096 + env_bytes + env.len() * 8 + fixed_total + fixed_args.len() * 8;
+    let base_cost = 2 * cmd0.len() + 2 + 8 + 16 + 2048 + 4096 + env_bytes + env.len() * 8 + fixed_total + fixed_args.len() * 8;
     let tight = |a: &Vec<u8>| a.len() + 1 + 8 + base_cost > b;
     match c.oversize {
         None => {
             if e2big || run.out.code == Some(126) {
-                let why = if near_limit { "per-argument-limit" } else if c.env & 15 != 0 { "with-large-environment" } else { "pointer-overhead" };
+                let why = if c.cmd_path as usize > 2048 { "command-path-longer-than-the-headroom" } else if near_limit { "per-argument-limit" } else if c.env & 15 != 0 { "with-large-environment" } else { "pointer-overhead" };
                 return fail(format!("C06:exec-rejected-command-line:{prof}:{why}"), desc());
             }
             if run.out.code == Some(1) && args.iter().any(tight) {
@@ -386,6 +408,7 @@ pub fn check(ctx: &mut Ctx, c: &Case) -> Outcome {
         .class_if(c.content == 1, "multi-byte-characters")
         .class_if(c.content == 2, "non-utf8-bytes")
         .class_if(fixed_total > 0, "fixed-arguments")
+        .class_if(c.cmd_path as usize > 2048, "command-path-longer-than-the-headroom")
         .class_if(fixed_total > 2048 && total_with_ptrs > b, "fixed-arguments-larger-than-the-headroom-and-several-invocations")
         .class(match c.stack {
             0 => "stack-256KiB",
